@@ -548,3 +548,114 @@ Theorem T1_aggr_bcolumn_Aggregate (ft : float_table) (d : list bool) (gs : list 
   = m_col_Aggregate ft (BCol d) (map ints gs) fn.
 Proof. exact (ga_bcolumn_Aggregate_eq ft d gs fn). Qed.
 Print Assumptions T1_aggr_bcolumn_Aggregate.
+
+(* ================================================================== Subset, stringSlice, scolumn.New, composition == *)
+
+(* ------------------------------------------------------------------ Column.Subset (closing the col_Subset boundary) *)
+(* a fresh data array holding the values at the positions of the index, in index order; a position outside the
+   column panics.  Each is the m_col_Subset that T1_aggr_Aggregate is instantiated with, on that column type. *)
+Theorem T1_aggr_icolumn_Subset (d : list Z) (ix : list nat) :
+  ga_icolumn_Column_Subset ICol (ga_mk_icolumn_Column d) (ints ix) = m_col_Subset (ICol d) (ints ix).
+Proof. exact (ga_icolumn_Subset_eq d ix). Qed.
+Print Assumptions T1_aggr_icolumn_Subset.
+
+(* fz: the zero the fresh float array is made of (every element is overwritten) *)
+Theorem T1_aggr_fcolumn_Subset (fz : N) (d : list N) (ix : list nat) :
+  ga_fcolumn_Column_Subset FCol fz (ga_mk_fcolumn_Column d) (ints ix) = m_col_Subset (FCol d) (ints ix).
+Proof. exact (ga_fcolumn_Subset_eq fz d ix). Qed.
+Print Assumptions T1_aggr_fcolumn_Subset.
+
+Theorem T1_aggr_bcolumn_Subset (d : list bool) (ix : list nat) :
+  ga_bcolumn_Column_Subset BCol (ga_mk_bcolumn_Column d) (ints ix) = m_col_Subset (BCol d) (ints ix).
+Proof. exact (ga_bcolumn_Subset_eq d ix). Qed.
+Print Assumptions T1_aggr_bcolumn_Subset.
+
+(* the enum subset shares the value table and does not copy the strict flag (abs_ecol reads the Go struct back) *)
+Theorem T1_aggr_ecolumn_Subset (d : list N) (values : list bytes) (strict : bool) (ix : list nat) :
+  ga_ecolumn_Column_Subset abs_ecol (emb_ecol d values strict) (ints ix) = m_col_Subset (ECol d values strict) (ints ix).
+Proof. exact (ga_ecolumn_Subset_eq d values strict ix). Qed.
+Print Assumptions T1_aggr_ecolumn_Subset.
+Example T1_aggr_ecolumn_Subset_example :
+  ga_ecolumn_Column_Subset abs_ecol (emb_ecol [1; 255; 0]%N [[97%N]; [98%N]] true) (ints [2%nat; 1%nat])
+  = Ok (Some (ECol [0; 255]%N [[97%N]; [98%N]] false)).
+Proof. vm_compute. reflexivity. Qed.
+
+(* ------------------------------------------------------------------ stringSlice: the []*string a user function gets *)
+(* scolumn: EVERY element is written — nil for a null row, the string otherwise — so the slice is exactly the cells
+   of the model (premise: the representation rep_scol) *)
+Theorem T1_aggr_scolumn_stringSlice (c : ga_scolumn_Column) (d : list (option bytes)) (g : list nat) :
+  rep_scol c d -> ga_scolumn_Column_stringSlice c (ints g) = omap (idx d) g.
+Proof. exact (ga_s_stringSlice_eq c d g). Qed.
+Print Assumptions T1_aggr_scolumn_stringSlice.
+Example T1_aggr_scolumn_stringSlice_example :
+  let c := ga_mk_scolumn_Column [gf_strings_NewPointer 0 2 false; gf_strings_NewPointer 2 0 true] [97; 98]%N in
+  rep_scol_check c [Some [97; 98]%N; None] = true
+  /\ ga_scolumn_Column_stringSlice c (ints [1%nat; 0%nat; 1%nat]) = Ok [None; Some [97; 98]%N; None].
+Proof. cbv zeta. split; vm_compute; reflexivity. Qed.
+
+(* ecolumn: nil for the null rank, &c.values[v] otherwise (an undeclared rank panics): the cells agg_vals reads *)
+Theorem T1_aggr_ecolumn_stringSlice (d : list N) (values : list bytes) (strict : bool) (g : list nat) :
+  ga_ecolumn_Column_stringSlice (emb_ecol d values strict) (ints g)
+  = omap (fun p => do r <- idx d p; enum_string values r) g.
+Proof. exact (ga_e_stringSlice_eq d values strict g). Qed.
+Print Assumptions T1_aggr_ecolumn_stringSlice.
+
+(* ------------------------------------------------------------------ scolumn.New (the column of the results) *)
+(* no premise: one pointer per string (running offset, length, null bit) over the concatenated bytes ... *)
+Theorem T1_aggr_scolumn_New (strs : list (option bytes)) :
+  ga_scolumn_New strs = Ok (ga_mk_scolumn_Column (layout strs 0) (bytes_of strs)).
+Proof. exact (ga_scolumn_New_eq strs). Qed.
+Print Assumptions T1_aggr_scolumn_New.
+
+(* ... which represents strs.  Premise: the limits of pointer.go — all bytes together < 2^35, every string < 2^28
+   (beyond them NewPointer packs colliding bit fields: pointer_len_limit_sharp in Proofs/BitsProofs.v) *)
+Theorem T1_aggr_scolumn_New_rep (strs : list (option bytes)) :
+  strs_small strs 0 -> rep_scol (ga_mk_scolumn_Column (layout strs 0) (bytes_of strs)) strs.
+Proof. exact (rep_scol_New strs). Qed.
+Print Assumptions T1_aggr_scolumn_New_rep.
+Example T1_aggr_scolumn_New_rep_example : strs_small [Some [97; 98]%N; None; Some []] 0.
+Proof. split; [vm_compute; reflexivity|repeat constructor]. Qed.
+
+(* ------------------------------------------------------------------ composition *)
+(* Grouper.Aggregate for ANY column level colS / colA that agrees with the model on the columns of the grouper *)
+Theorem T1_aggr_Aggregate_any_column_level (ft : float_table) (g : grouper)
+  (colS : coldata -> list Z -> outcome (option coldata))
+  (colA : coldata -> list (list Z) -> aggfn -> outcome (option coldata * option unit)) (aggs : list aggregation) :
+  (forall c firsts, In c (map snd (gcols g)) -> colS c (ints firsts) = omap1 Some (col_subset c firsts)) ->
+  Z.of_nat (length (gindices g)) < 4294967296 ->
+  (forall c a, In c (map snd (gcols g)) -> In a aggs -> is_count (agfn a) = false ->
+     colA c (map ints (gindices g)) (agfn a) = agg_pair (col_aggregate ft c (gindices g) (agfn a))) ->
+  ga_Grouper_Aggregate m_new_error m_propagate m_unknownCol m_fn_eq_string colS colA
+    m_icolumn_New (emb_grouper g) (map emb_agg aggs)
+  = omap1 emb_frame (aggregate ft g aggs).
+Proof. exact (fun HS Hn HA => ga_Grouper_Aggregate_gen ft g colS colA HS aggs Hn HA). Qed.
+Print Assumptions T1_aggr_Aggregate_any_column_level.
+
+(* ... instantiated with the TRANSLATED column functions (tr_col_Subset / tr_col_Aggregate dispatch on the column
+   type to Column.Subset of icolumn / fcolumn / bcolumn / ecolumn and Column.Aggregate of icolumn / fcolumn /
+   bcolumn), for groupers over columns of any types.  What remains a parameter or the model's function:
+   the float arithmetic fzero / fadd / fdiv / fofint (any; math.Max / math.Min are the model's f_max / f_min) with
+   the premise float_oracle_ok (the oracle table holds its results for "sum" / "avg" on the float columns), Subset
+   and Aggregate of string columns and Aggregate of enum columns (the model's functions), error values (tt). *)
+Theorem T1_aggr_Aggregate_composed (ft : float_table) (fzero : N) (fadd fdiv : N -> N -> N) (fofint : Z -> N)
+  (g : grouper) (aggs : list aggregation) :
+  Z.of_nat (length (gindices g)) < 4294967296 ->
+  float_oracle_ok ft fzero fadd fdiv fofint g aggs ->
+  ga_Grouper_Aggregate m_new_error m_propagate m_unknownCol m_fn_eq_string (tr_col_Subset fzero)
+    (tr_col_Aggregate ft fzero fadd fdiv fofint) m_icolumn_New (emb_grouper g) (map emb_agg aggs)
+  = omap1 emb_frame (aggregate ft g aggs).
+Proof. exact (ga_Grouper_Aggregate_composed ft fzero fadd fdiv fofint g aggs). Qed.
+Print Assumptions T1_aggr_Aggregate_composed.
+Example T1_aggr_Aggregate_composed_example :
+  let g := mkGrouper [([1%N], ICol [5; 6; 7]); ([2%N], ECol [0; 0; 1]%N [[97%N]; [98%N]] true); ([3%N], BCol [true; true; false])]
+             [[2%N]] [[0%nat; 1%nat]; [2%nat]] false in
+  let aggs := [mkAgg (GName (bs 3 0x6d6178)) [1%N] []; mkAgg (GName (bs 8 0x6d616a6f72697479)) [3%N] []] in
+  Z.of_nat (length (gindices g)) < 4294967296 /\ float_oracle_ok [] 0%N N.add N.add (fun _ => 0%N) g aggs
+  /\ ga_Grouper_Aggregate m_new_error m_propagate m_unknownCol m_fn_eq_string (tr_col_Subset 0%N)
+       (tr_col_Aggregate [] 0%N N.add N.add (fun _ => 0%N)) m_icolumn_New (emb_grouper g) (map emb_agg aggs)
+     = Ok (emb_frame (mkFrame [([2%N], ECol [0; 1]%N [[97%N]; [98%N]] false); ([1%N], ICol [6; 7]); ([3%N], BCol [true; false])]
+                        [0%nat; 1%nat] false)).
+Proof.
+  cbv zeta. split; [reflexivity|]. split; [|vm_compute; reflexivity].
+  intros d a Hd Ha. cbn in Hd. destruct Hd as [H|[H|[H|[]]]]; discriminate.
+Qed.
